@@ -865,7 +865,7 @@ class CtxWorld:
             "stubs": stubs,
             "assumptions": [
                 "sampling, not enumeration: a clean batch is evidence, not proof",
-                "float worlds compare with relative tolerance 1e-9; exactness is asserted only in Fraction worlds",
+                "values are compared with the reference model with relative tolerance 1e-9 in float worlds and exactly in Fraction worlds; answers of a revisited stack state of one registry are compared bit for bit",
                 "parameter inheritance is asserted only where unambiguous (DESIGN.md O2)",
                 "units defined while a redefining context is active are not probed afterwards (DESIGN.md O3)",
                 "the reference model shares no code with pint but was written by the same author as the checks",
